@@ -6,7 +6,7 @@ print(f"""You are helping evaluate a verification effort by playing the role of 
 
 Setup (do this first):
   git -C /repo worktree add {wt} HEAD
-Work only in {wt}. Run Python as `cd {wt} && PYTHONPATH={wt} /venv/bin/python ...` (the PYTHONPATH matters: without it the installed copy from /repo is imported). The full test suite is `cd {wt} && PYTHONPATH={wt} /venv/bin/python -m pytest -q -p no:cacheprovider --timeout=900 -x -q` (about 2-4 minutes; 14 tests fail on the untouched tree already: tests/test_color_conversion.py::test_float_to_int_clipped[...] several, tests/scripts/.../test_parallel..., tests/verification/test_compare.py::TestCompareSources::test_tokenisation_errors — ignore exactly those; run without -x to see the list and compare before/after).
+Work only in {wt}. NEVER use `git stash` (the stash is shared by all worktrees of /repo and other people are working in parallel): to get a clean tree temporarily use `git diff > /tmp/mychange.diff; git checkout -- .` and later `git apply /tmp/mychange.diff`. Run Python as `cd {wt} && PYTHONPATH={wt} /venv/bin/python ...` (the PYTHONPATH matters: without it the installed copy from /repo is imported). The full test suite is `cd {wt} && PYTHONPATH={wt} /venv/bin/python -m pytest -q -p no:cacheprovider --timeout=900 -x -q` (about 2-4 minutes; 14 tests fail on the untouched tree already: tests/test_color_conversion.py::test_float_to_int_clipped[...] several, tests/scripts/.../test_parallel..., tests/verification/test_compare.py::TestCompareSources::test_tokenisation_errors — ignore exactly those; run without -x to see the list and compare before/after).
 
 The semantic property (id {pid}) that the project is supposed to satisfy:
   Title: {p['title']}
